@@ -179,7 +179,7 @@ RULES = {
            "Non-trivial: hostile consumer present with M > queue; a flood with >= 2 signers present. Distinct by full case descriptor.",
     "C11": "a beacon.NewCallbackStore over {trimmed bolt, untrimmed bolt, memdb ring of 10 that is already full} holding rounds 0..H (H in 0..40) and up to 3 real beacon.SyncChain invocations (two of them from the same client address = reconnect) "
            "with start round in {0, lowest stored, middle, head, head+1, head+5}. Every cursor Seek/Next, every stream Send and the AddCallback call parks at a gate owned by the harness, so the interleaving of the scan, the hand-over "
-           "to live delivery and up to 14 store appends is a rapid-generated sequence of {open, step k gates, fail a send, put, cancel}. Oracle: the sequence of rounds handed to Send (up to the first failed send) is start, start+1, ... "
+           "to live delivery and up to 14 store appends is a rapid-generated sequence of {open, step k gates, fail a send, put, cancel, re-connect of a live client while a send to its first connection is pending, completion/failure of the pending send of a stream that has already returned}. Oracle: the sequence of rounds handed to Send (up to the first failed send) is start, start+1, ... "
            "without skip or repeat, each equal to the stored beacon; at the end every live stream, run to quiescence, has delivered up to the store head; a start beyond the head is refused. "
            "Non-trivial: a put while some stream was still in its catch-up phase, >= 2 concurrent streams, or a reconnect; distinct by back-end + H + action history.",
     "C10": "sync: one real node (scheme in 5, 3 back-ends, chained/unchained) at height h in {0,1,3,8} with a clock h+{1,2,5,12} rounds ahead catches up (Handler.Catchup + tick-triggered re-requests) from 1-5 scripted peers, each drawn from "
